@@ -18,6 +18,7 @@ from scenarios.common import v
 
 
 class DistFamily(common.Family):
+  pct_ok = False   # timed oracles: see harness.run_random
   prop = 'C16'
   name = 'dist'
   max_steps = 2_000_000
